@@ -12,6 +12,8 @@
 (*           a report and for the DRIFT line, NOT for the verdict)         *)
 (*   req   res, b, ok, [bt, rule, val]   one api.Entry and what it returned*)
 (*   tick  t                              the clock moved to t             *)
+(*   reload t, rules                      flow.LoadRules / LoadRulesOf-    *)
+(*           Resource replaced the rule list while traffic is running      *)
 (*   conc  res, bs, sched, oks            k gated goroutines ran api.Entry *)
 (*           in the interleaving sched (who moves next; each caller moves  *)
 (*           twice: to the yield point "chain.checked", then to the end)   *)
@@ -21,6 +23,14 @@
 (* of the interval) that are consistent with every decision observed so    *)
 (* far in the trace; a decision is wrong iff it leaves some rule without a *)
 (* candidate.  The abstract state follows the OBSERVED outcome.            *)
+(*                                                                         *)
+(* After a reload the property does not fix either from which instant a    *)
+(* rule's window has been counting: a window created by the reload counts  *)
+(* from the reload on, a rule whose statistic parameters are those of an   *)
+(* old rule may keep that rule's window (C14), a view of the resource's    *)
+(* own statistic has always been counting.  A candidate is therefore a     *)
+(* pair [bl, since]; what NO candidate explains - e.g. one window fed by   *)
+(* two rules, so that every token counts twice - is a wrong decision.      *)
 (***************************************************************************)
 EXTENDS WindowRef, AdmitOps, TLC, Json
 
@@ -31,7 +41,7 @@ VARIABLES
     now,      \* current time of the running trace
     rs,       \* rules of the running trace
     adm,      \* [1..nres -> per-tick reference of admitted tokens]
-    cand,     \* [rule index -> set of bucket lengths still consistent]
+    cand,     \* [rule index -> set of candidates [bl, since] still consistent]
     g,        \* [tr] of the running trace
     failed    \* the running trace already mismatched
 
@@ -50,16 +60,20 @@ RulesOf(rules, res) == { i \in 1..Len(rules) : rules[i].res = res }
 Divisors(n) == LET lo == { d \in 1..Min2(n, 1000) : d * d <= n /\ n % d = 0 } IN lo \cup { n \div d : d \in lo }
 
 Thr(i)         == <<rs[i].num, rs[i].den>>
-SumFor(i, bl, a) == AlignedSum(a[Counted(rs[i])], bl, now, rs[i].I)
-\* bucket lengths under which rule i lets batch b pass / blocks it with reported value v
-PassCands(i, b)     == { bl \in cand[i] : ~Exceeds(SumFor(i, bl, adm), b, Thr(i)) }
-BlockCands(i, b, v) == { bl \in cand[i] : SumFor(i, bl, adm) = v /\ Exceeds(v, b, Thr(i)) }
+\* the part of a per-tick reference recorded at or after time s
+Since(ref, s)  == IF s = 0 THEN ref ELSE [x \in { y \in DOMAIN ref : y >= s } |-> ref[x]]
+SumFor(i, c, a) == AlignedSum(Since(a[Counted(rs[i])], c.since), c.bl, now, rs[i].I)
+\* candidates under which rule i lets batch b pass / blocks it with reported value v
+PassCands(i, b)     == { c \in cand[i] : ~Exceeds(SumFor(i, c, adm), b, Thr(i)) }
+BlockCands(i, b, v) == { c \in cand[i] : SumFor(i, c, adm) = v /\ Exceeds(v, b, Thr(i)) }
+\* the hinted candidate: the predicted bucket length, counting from the latest instant still possible
+Hint(i) == [bl |-> rs[i].bl, since |-> MaxOr0({ c.since : c \in cand[i] })]
 
 \* the decision under the hinted geometry: printed as the expected value of a mismatch
 HintDecision(res, b) ==
-    LET S == { i \in RulesOf(rs, res) : Exceeds(SumFor(i, rs[i].bl, adm), b, Thr(i)) } IN
+    LET S == { i \in RulesOf(rs, res) : Exceeds(SumFor(i, Hint(i), adm), b, Thr(i)) } IN
     IF S = {} THEN [ok |-> TRUE]
-    ELSE [ok |-> FALSE, bt |-> "flow", rule |-> MinOf(S), val |-> SumFor(MinOf(S), rs[MinOf(S)].bl, adm)]
+    ELSE [ok |-> FALSE, bt |-> "flow", rule |-> MinOf(S), val |-> SumFor(MinOf(S), Hint(MinOf(S)), adm)]
 
 Judge(ok, expected) ==
     IF failed \/ ok THEN failed' = failed
@@ -73,8 +87,8 @@ TNew ==
     /\ now' = Ev.t /\ Ev.t > 0
     /\ rs' = Ev.rules
     /\ adm' = [r \in 1..Ev.nres |-> << >>]
-    /\ cand' = [i \in 1..Len(Ev.rules) |-> Divisors(Ev.rules[i].I)]
-    /\ g' = [tr |-> Ev.tr]
+    /\ cand' = [i \in 1..Len(Ev.rules) |-> { [bl |-> d, since |-> 0] : d \in Divisors(Ev.rules[i].I) }]
+    /\ g' = [tr |-> Ev.tr, maxI |-> IF Has(Ev, "maxI") THEN Ev.maxI ELSE MaxOr0({ Ev.rules[i].I : i \in 1..Len(Ev.rules) })]
     /\ failed' = FALSE
 
 \* new candidate sets after an observed decision (a rule that would be left without a candidate keeps its set:
@@ -82,7 +96,7 @@ TNew ==
 Keep(i, S) == IF S = {} THEN cand[i] ELSE S
 \* implementation-level remark (never a verdict): the decision rules out the bucket length GeometryFor predicts
 GeoDrift(c2) == \A i \in DOMAIN cand :
-                  (rs[i].bl \in cand[i] /\ rs[i].bl \notin c2[i]) =>
+                  (rs[i].bl \in { c.bl : c \in cand[i] } /\ rs[i].bl \notin { c.bl : c \in c2[i] }) =>
                       PrintT("DRIFT " \o ToString(g.tr) \o " " \o ToString(l) \o " geometry of rule " \o ToString(i))
 
 TReq ==
@@ -108,13 +122,25 @@ TReq ==
     /\ (failed' \/ GeoDrift(cand'))
     /\ UNCHANGED <<now, rs, g>>
 
-MaxI == MaxOr0({ rs[i].I : i \in 1..Len(rs) })
 TTick ==
     /\ IsEvent("tick")
     /\ Ev.t >= now
     /\ now' = Ev.t
-    /\ adm' = [r \in DOMAIN adm |-> Prune(adm[r], 1, MaxI, Ev.t)]
+    /\ adm' = [r \in DOMAIN adm |-> Prune(adm[r], 1, g.maxI, Ev.t)]
     /\ UNCHANGED <<rs, cand, g, failed>>
+
+\* the rule list is replaced under traffic (the driver never reloads in a millisecond in which a token was admitted, so
+\* "recorded at or after the reload" is "recorded at a time >= now")
+Compatible(o, n) == o.res = n.res /\ o.ref = n.ref /\ o.I = n.I
+TReload ==
+    /\ IsEvent("reload")
+    /\ Ev.t = now
+    /\ \A r \in DOMAIN adm : now \notin DOMAIN adm[r]
+    /\ rs' = Ev.rules
+    /\ cand' = [i \in 1..Len(Ev.rules) |->
+                   LET kept == UNION { { c.since : c \in cand[j] } : j \in { k \in DOMAIN rs : Compatible(rs[k], Ev.rules[i]) } }
+                   IN  { [bl |-> d, since |-> s] : d \in Divisors(Ev.rules[i].I), s \in {0, now} \cup kept }]
+    /\ UNCHANGED <<now, adm, g, failed>>
 
 ---------------------------------------------------------------------------
 (* k callers inside the admission path at the same time (clock fixed).     *)
@@ -147,7 +173,7 @@ ConcOK(res, bs, oks) ==
 
 Predicted(res, bs, sched) ==
     LET i == CHOOSE x \in RulesOf(rs, res) : TRUE IN
-    PathReplay(PathInit(SumFor(i, rs[i].bl, adm), Len(bs)), sched, 1, bs, Thr(i), "qps")
+    PathReplay(PathInit(SumFor(i, Hint(i), adm), Len(bs)), sched, 1, bs, Thr(i), "qps")
 
 Drift(res, bs, sched, oks) ==
     LET mine == RulesOf(rs, res) IN
@@ -164,7 +190,7 @@ TConc ==
     /\ adm' = [adm EXCEPT ![Ev.res] = Admit(@, now, SumIf(Ev.bs, Ev.oks, 1..Len(Ev.bs)))]
     /\ UNCHANGED <<now, rs, cand, g>>
 
-TInit == l = 1 /\ now = 0 /\ rs = << >> /\ adm = << >> /\ cand = << >> /\ g = [tr |-> 0] /\ failed = FALSE
-TNext == TNew \/ TReq \/ TTick \/ TConc
+TInit == l = 1 /\ now = 0 /\ rs = << >> /\ adm = << >> /\ cand = << >> /\ g = [tr |-> 0, maxI |-> 0] /\ failed = FALSE
+TNext == TNew \/ TReq \/ TTick \/ TConc \/ TReload
 TSpec == TInit /\ [][TNext]_tvars
 =============================================================================
